@@ -18,14 +18,18 @@ PROPS = {
             "Amqp.Session.window_formula",
             "Amqp.Session.counters_exact_out",
             "Amqp.Session.counters_exact_in",
+            "Amqp.Frame.session_cut_payload",
+            "Amqp.Frame.session_cut_fits",
+            "Amqp.Frame.one_frame_per_session_transfer",
         ],
-        "harness": ["session"],
-        "gen_files": ["Amqp/Gen/SessionKernels.lean"],
+        "harness": ["session", "sessionwire"],
+        "gen_files": ["Amqp/Gen/SessionKernels.lean", "Amqp/Gen/FrameKernels.lean"],
         "technique": "Lean 4 proof by induction over operation histories (invariant on generated u32 kernels) + differential correspondence with a detached Session endpoint",
         "level_text": "Machine-checked theorems over all histories, all initial ids (incl. the 2^32 wrap) and all flow contents for a model whose arithmetic and branch conditions are regenerated from session/mod.rs on every run; the model's control flow is tied to the real Session endpoint by seeded differential runs through the verif facade, and the property itself is evaluated on the implementation to produce replays.",
-        "level_note": "Trusted: Lean kernel; rs2lean's extraction of assignments/conditions and Amqp/U32.lean; the harness and its generator. Not modelled: tokio channels between link, session and connection engines (frames are taken at the Session endpoint's return values), link-level echo flows (exercised only by engine-level runs).",
+        "level_note": "Trusted: Lean kernel; rs2lean's extraction of assignments/conditions and Amqp/U32.lean; the harness and its generator. Not modelled: tokio channels between link, session and connection engines (frames are taken at the Session endpoint's return values; the whole stack incl. the engine's frame-size cut is exercised by the sessionwire runs against a scripted peer that pauses before re-opening its window), link-level echo flows (exercised only by engine-level runs).",
         "assumptions": COMMON_ASSUME + [
             "histories start with the peer's begin and contain no second begin (the engine rejects it)",
+            "one_frame_per_session_transfer: the performative the session finally encodes is no longer than the one split_transfer measured (the delivery-id is measured at its widest); performative + payload below 2^64 bytes",
             "the search oracle judges only flows whose next-incoming-id lies between the initial and the current next-outgoing-id (a peer cannot have received frames that were never sent)",
         ],
         "design_ref": "DESIGN.md §7 C07",
@@ -183,4 +187,26 @@ PROPS["C10"] = {
     "level_note": "Trusted: Lean kernel; the hand-written model Amqp/Reasm.lean (no generated part: the code is field-merging logic, tied by the differential runs); harness + scripted peer. Decoding of the reassembled payload is C03 (decoding from a list of chunks = decoding from their concatenation is assumed of util::IntoReader, exercised by every run). Frames of other links are routed by handle (C11); here a second link is interleaved in the runs.",
     "assumptions": COMMON_ASSUME + ["tokio mpsc between session task and link is FIFO"],
     "design_ref": "DESIGN.md §7 C10",
+}
+
+PROPS["C11"] = {
+    "title": "Identifiers: delivery-ids, handles, routing",
+    "module": "Theorems.C11",
+    "theorems": [
+        "Amqp.Handles.handles_unique",
+        "Amqp.Handles.reuse_after_free",
+        "Amqp.Handles.duplicate_name_refused",
+        "Amqp.Session.delivery_id_is_transfer_id",
+        "Amqp.Session.id_iff_tag",
+        "Amqp.LinkSplit.tag_cleared_before_loop",
+        "Amqp.LinkSplit.one_tag_per_delivery",
+        "Amqp.LinkSplit.old_order_two_tags",
+    ],
+    "harness": ["ids"],
+    "gen_files": ["Amqp/Gen/SessionKernels.lean", "Amqp/Gen/LinkSplitKernels.lean", "Amqp/Gen/FrameKernels.lean"],
+    "technique": "Lean 4 proof: slab/name-table invariant by induction over attach/detach histories; delivery-id = transfer-id of the tagged frame on generated session kernels; one tag per delivery through both cutting layers (generated size conditions and statement order); engine-level differential runs against a scripted peer",
+    "level_text": "Machine-checked for all attach/detach histories (handles pairwise distinct, names unique, a handle is handed out again only after its holder was removed) on a model of slab::Slab's LIFO free list and the session's name table; for all send histories the delivery-id stamped on a frame is that frame's transfer-id (hence strictly increasing in serial order and never reused) and is stamped exactly on transfers that carry a delivery-tag; for every message size, max-message-size and frame size exactly the first transfer of a delivery carries the tag after both cutting layers, with the size conditions and the position of the tag-clearing statement regenerated from link/sender_link.rs and frames/amqp.rs. Tied to the code by engine-level runs: a real Sender observed frame by frame by a scripted receiver (both cutting layers, windows from 1, ids around 2^32), random attach/detach histories whose handles are read off the wire and compared line by line with the slab model, and routing of deliveries by sparse and large peer-chosen handles to several Receivers.",
+    "level_note": "Trusted: Lean kernel; rs2lean extraction; the hand-written slab model (slab crate behaviour: LIFO reuse of vacant keys, tied by the wire comparison); harness + scripted peer. Channel allocation on the connection uses the same slab mechanism and is exercised by the lifecycle runs only; routing by incoming channel is covered by runs, not by a theorem. Not covered: a peer re-attaching on an input handle that is still in use (recorded under C15).",
+    "assumptions": COMMON_ASSUME + ["tokio mpsc between link and session task is FIFO (frames of one delivery reach the session in order)"],
+    "design_ref": "DESIGN.md §7 C11",
 }
